@@ -252,6 +252,9 @@ def isin(t: Term, members: Any) -> Term:
     ms = tuple(sorted(set(members), key=_key))
     if len(ms) == 1:
         return cmp("==", t, ms[0])
+    closed = lambda x: isinstance(x, tuple) and x and (x[0] == "enum" or (x[0] == "const" and isinstance(x[1], (str, int)) and not isinstance(x[1], bool)))
+    if closed(t) and all(closed(m) for m in ms):
+        return C(t in ms)
     return ("in", t, ("set", ms))
 
 
